@@ -600,6 +600,8 @@ pub fn replay<E: Engine>(e: &E, path: &str) -> i32 {
             }
         }
     }
+    // violations other than the recorded one that are listed known findings do not count as "a different violation"
+    let vs: Vec<&Violation> = vs.iter().filter(|x| known_match(&known, e.id(), x).is_none()).collect();
     if hit {
         1
     } else if vs.is_empty() {
